@@ -458,6 +458,11 @@ class _Raise(Exception):
     pass
 
 
+class PyRaised(NotConst):
+    """the interpreted code executed `raise <exc_name>(...)`"""
+    exc_name: str | None = None
+
+
 class _Break(Exception):
     pass
 
@@ -732,7 +737,7 @@ class PyEval:
             return ("external", base[1] + "." + n.attr)
         if isinstance(base, range) and n.attr in ("start", "stop", "step"):
             return getattr(base, n.attr)
-        if getattr(base, "_sa_host", False) and not n.attr.startswith("_") and hasattr(base, n.attr):
+        if getattr(base, "_sa_host", False) and not n.attr.startswith(("__", "_sa_")) and hasattr(base, n.attr):
             return getattr(base, n.attr)  # abstract host object supplied by a check (its methods are the transfer functions)
         raise NotConst(f"attribute .{n.attr} on {type(base).__name__} at {self.mod.rel}:{n.lineno}")
 
@@ -1044,7 +1049,35 @@ class PyEval:
         elif isinstance(st, ast.Pass):
             return
         elif isinstance(st, ast.Raise):
-            raise NotConst(f"folded helper raises at {self.mod.rel}:{st.lineno}")
+            exc = st.exc.func if isinstance(st.exc, ast.Call) else st.exc
+            e = PyRaised(f"folded helper raises at {self.mod.rel}:{st.lineno}")
+            e.exc_name = (exc.id if isinstance(exc, ast.Name) else getattr(exc, "attr", None)) if exc is not None else None
+            raise e
+        elif isinstance(st, ast.Try):
+            # a `raise X(...)` executed inside the body is matched against the handlers by class name (builtin hierarchy: a bare
+            # except / Exception / BaseException catches everything); anything else leaves the fragment as before
+            try:
+                self.exec_block(st.body)
+            except PyRaised as r:
+                if st.finalbody:
+                    raise NotConst(f"try/finally with a raising body at {self.mod.rel}:{st.lineno}")
+                for h in st.handlers:
+                    names = []
+                    if h.type is None:
+                        names = ["BaseException"]
+                    else:
+                        for t in (h.type.elts if isinstance(h.type, ast.Tuple) else [h.type]):
+                            names.append(t.id if isinstance(t, ast.Name) else getattr(t, "attr", ""))
+                    if r.exc_name is not None and (r.exc_name in names or "Exception" in names or "BaseException" in names):
+                        if h.name:
+                            raise NotConst(f"except ... as {h.name} at {self.mod.rel}:{h.lineno}")
+                        self.exec_block(h.body)
+                        break
+                else:
+                    raise
+            else:
+                self.exec_block(st.orelse)
+                self.exec_block(st.finalbody)
         elif isinstance(st, ast.Assert):
             if not self.eval(st.test):
                 raise NotConst(f"folded helper assertion fails at {self.mod.rel}:{st.lineno}")
@@ -1170,3 +1203,53 @@ def calls(node: ast.AST) -> Iterator[ast.Call]:
 
 def call_name(c: ast.Call) -> str:
     return attr_chain(c.func) or ""
+
+
+class ClassHost:
+    """A host stand-in for an instance of a repo class: the fields a check supplies are plain attributes; any *other* attribute is
+    looked up on the real class - a method is interpreted from its source with this object as `self`, a class attribute is evaluated."""
+    _sa_host = True
+
+    def __init__(self, prog: "PyProgram", mod: "PyModule", cls: "PyClass", **fields: Any):
+        object.__setattr__(self, "_sa_prog", prog)
+        object.__setattr__(self, "_sa_mod", mod)
+        object.__setattr__(self, "_sa_cls", cls)
+        for k, v in fields.items():
+            object.__setattr__(self, k, v)
+
+    def __getattr__(self, name: str) -> Any:
+        if name.startswith(("__", "_sa_")):
+            raise AttributeError(name)
+        cls = object.__getattribute__(self, "_sa_cls")
+        hit = cls.find_method(name)
+        if hit is not None:
+            owner, fn = hit
+            return lambda *a, **k: self._sa_call(owner, fn, a, k)
+        at = cls.find_attr(name)
+        if at is not None:
+            owner, node = at
+            return PyEval(self._sa_prog, owner.mod).eval(node)
+        raise AttributeError(name)
+
+    def _sa_call(self, owner: "PyClass", fn: ast.FunctionDef, a: tuple, k: dict) -> Any:
+        params = [x.arg for x in fn.args.args if x.arg != "self"]
+        env: dict = {"self": self}
+        defaults = fn.args.defaults
+        ev = PyEval(self._sa_prog, owner.mod, budget=[200000])
+        for i, dflt in enumerate(defaults):
+            env[params[len(params) - len(defaults) + i]] = ev.eval(dflt)
+        for kw, dflt in zip(fn.args.kwonlyargs, fn.args.kw_defaults):
+            if dflt is not None:
+                env[kw.arg] = ev.eval(dflt)
+        for i, v in enumerate(a):
+            env[params[i]] = v
+        env.update(k)
+        missing = [p_ for p_ in params if p_ not in env]
+        if missing:
+            raise NotConst(f"{fn.name}: arguments {missing} not supplied")
+        ev.env = env
+        try:
+            ev.exec_block(fn.body)
+        except _Return as r:
+            return r.v
+        return None
